@@ -324,13 +324,16 @@ def pre (g : Grammar) (o : Opts) (el : Nat) (n : Node) (parent : Option Nat) (in
       .ret (some r) s2
     | .fresh => preFresh g o el n parent index hint s
 
+/-- :707-709 `ret.kwargs["items"].insert(i, None)` -/
+def addPlaceholder (s : St) (ret i : Nat) : St :=
+  match (s.node ret).kw with
+  | .items l => s.setKw ret (.items (insertAt l i .none))
+  | _ => s
+
 /-- one iteration of the loop over `exprs` (:706-732), given the converter for a child -/
 def stepKid (rec : Nat → Option Nat → Nat → Option String → St → Option (Option Nat × St))
     (ret : Nat) (c : Nat) (i : Nat) (s : St) : Option (Nat × St) :=
-  let s1 := match (s.node ret).kw with
-    | .items l => s.setKw ret (.items (insertAt l i .none))
-    | _ => s
-  match rec c (some ret) i none s1 with
+  match rec c (some ret) i none (addPlaceholder s ret i) with
   | none => none
   | some (item, s2) =>
     match item, (s2.node ret).kw with
@@ -483,5 +486,48 @@ def toRailroad (g : Grammar) (o : Opts) (fuel root : Nat) : Option (List Named) 
   match convertRoot g o fuel root with
   | none => none
   | some s => some (sortByIndex ((selected s).map (entryTree s)))
+
+/-! ### observables of the output (what the statement of C20 speaks about) -/
+
+mutual
+/-- does the tree contain a `None` / `""` where an item should be -/
+def Tree.hasRaw : Tree → Bool
+  | .rawNone => true
+  | .rawEmpty => true
+  | .node _ _ _ ks => Tree.hasRawL ks
+def Tree.hasRawL : List Tree → Bool
+  | [] => false
+  | t :: ts => t.hasRaw || Tree.hasRawL ts
+end
+
+mutual
+/-- link targets (NonTerminal hrefs, represented by the name they are the bookmark of) -/
+def Tree.links : Tree → List String
+  | .rawNone => []
+  | .rawEmpty => []
+  | .node f _ text ks => (if f = .nonTerminal then [text] else []) ++ Tree.linksL ks
+def Tree.linksL : List Tree → List String
+  | [] => []
+  | t :: ts => t.links ++ Tree.linksL ts
+end
+
+mutual
+/-- Terminal texts -/
+def Tree.terminals : Tree → List String
+  | .rawNone => []
+  | .rawEmpty => []
+  | .node f _ text ks => (if f = .terminal then [text] else []) ++ Tree.terminalsL ks
+def Tree.terminalsL : List Tree → List String
+  | [] => []
+  | t :: ts => t.terminals ++ Tree.terminalsL ts
+end
+
+def names (ds : List Named) : List (Option String) := ds.map (·.name)
+
+/-- every link of every diagram points to the bookmark of a diagram of the same output -/
+def linksResolve (ds : List Named) : Bool :=
+  ds.all (fun d => d.tree.links.all (fun t => (names ds).contains (some t)))
+
+def noEmptyPlaceholder (ds : List Named) : Bool := ds.all (fun d => !d.tree.hasRaw)
 
 end PP.Diagram
